@@ -17,6 +17,7 @@ import (
 	"go.opentelemetry.io/otel/attribute"
 	otelprom "go.opentelemetry.io/otel/exporters/prometheus"
 	"go.opentelemetry.io/otel/metric"
+	"go.opentelemetry.io/otel/sdk/instrumentation"
 	sdkmetric "go.opentelemetry.io/otel/sdk/metric"
 	"go.opentelemetry.io/otel/sdk/metric/metricdata"
 	"go.opentelemetry.io/otel/sdk/resource"
@@ -39,9 +40,12 @@ type plan struct {
 	clash bool // two instruments may map to one family (or share an SDK identity)
 	odd   bool // an instrument has attribute sets with different key sets
 	alias bool // two attribute sets of one instrument merge into the same label set
+	// two scopes of the case merge into the same otel_scope_info label set
+	// (attribute keys that differ only in characters the legacy scheme replaces)
+	scopeAlias bool
 }
 
-func (p *plan) strong() bool { return !p.clash && !p.odd && !p.alias }
+func (p *plan) strong() bool { return !p.clash && !p.odd && !p.alias && !p.scopeAlias }
 
 func (in *Inst) attrSet(t int) attribute.Set {
 	keys, vals := in.Keys, []string(nil)
@@ -59,6 +63,15 @@ func (in *Inst) attrSet(t int) attribute.Set {
 
 func newPlan(c *Case) *plan {
 	p := &plan{c: c}
+	// two scopes whose info series would carry the same label set
+	infos := map[string]bool{}
+	for _, sc := range c.Scopes {
+		lk := labelKey(scopeInfoLabels(sc, c.Legacy))
+		if infos[lk] {
+			p.scopeAlias = true
+		}
+		infos[lk] = true
+	}
 	seen := map[string]int{}
 	lower := map[string]int{}
 	for i := range c.Insts {
@@ -466,6 +479,20 @@ func (k *checker) histShape(tag, fam string, h *dto.Histogram) {
 	}
 }
 
+func sameScope(s instrumentation.Scope, sc Scope) bool {
+	want := attribute.NewSet(toKVs(sc.Attrs)...)
+	return s.Name == sc.Name && s.Version == sc.Version && s.Attributes.Equals(&want)
+}
+
+// scopeInfoLabels is the reference label set of a scope's otel_scope_info
+// series: the scope attributes as a set in which the reserved keys hold the
+// REAL name and version, translated by the general rule.
+func scopeInfoLabels(sc Scope, legacy bool) map[string]string {
+	kvs := append(toKVs(sc.Attrs), attribute.String("otel_scope_name", sc.Name), attribute.String("otel_scope_version", sc.Version))
+	set := attribute.NewSet(kvs...) // a later value replaces an earlier one of the same key
+	return refLabels(set.ToSlice(), legacy)
+}
+
 func (k *checker) constLabels() map[string]string {
 	c := k.p.c
 	if c.ResFilter == "" {
@@ -541,12 +568,24 @@ func (k *checker) exact(tag string, mfs []*dto.MetricFamily, gerr error, rm *met
 		info("target_info", []map[string]string{refLabels(toKVs(c.Resource), c.Legacy)})
 	}
 	// otel_scope_info: one series per scope that has metrics, unless disabled.
+	// A scope is in use when the SDK reports metrics for it; its series is
+	// described by the CASE's scope: the scope's attributes with the real name
+	// and version (the reserved labels cannot be overridden by an attribute
+	// of the same key), then translated like any attribute set.
 	var scopes []map[string]string
 	if !c.NoScopeInfo {
 		for _, sm := range rm.ScopeMetrics {
-			kvs := append([]attribute.KeyValue{}, sm.Scope.Attributes.ToSlice()...)
-			kvs = append(kvs, attribute.String("otel_scope_name", sm.Scope.Name), attribute.String("otel_scope_version", sm.Scope.Version))
-			scopes = append(scopes, refLabels(kvs, c.Legacy))
+			found := false
+			for si := range c.Scopes {
+				if sameScope(sm.Scope, c.Scopes[si]) {
+					scopes = append(scopes, scopeInfoLabels(c.Scopes[si], c.Legacy))
+					found = true
+					break
+				}
+			}
+			if !found {
+				k.bad("sdk_scope_unknown", "%s: the SDK reports scope %q %q %s which the case does not have", tag, sm.Scope.Name, sm.Scope.Version, sm.Scope.Attributes.Encoded(attribute.DefaultEncoder()))
+			}
 		}
 	}
 	info("otel_scope_info", scopes)
@@ -568,7 +607,7 @@ func (k *checker) exact(tag string, mfs []*dto.MetricFamily, gerr error, rm *met
 		// the SDK's own view of the instrument
 		var data metricdata.Aggregation
 		for _, sm := range rm.ScopeMetrics {
-			if sm.Scope.Name != sc.Name {
+			if !sameScope(sm.Scope, sc) {
 				continue
 			}
 			for _, m := range sm.Metrics {
@@ -972,6 +1011,29 @@ func classify(c *Case, p *plan, info *vk.Info) {
 	info.ClassIf(c.Namespace != "", "namespace")
 	info.ClassIf(c.ResFilter != "", "resource_as_constant_labels")
 	info.ClassIf(len(c.Scopes) > 1, "two_scopes")
+	info.ClassIf(len(c.Scopes) > 2, "three_scopes")
+	for si, sc := range c.Scopes {
+		san := map[string]bool{}
+		for _, a := range sc.Attrs {
+			u := underscore(a.K, false)
+			reserved := u == "otel_scope_name" || u == "otel_scope_version"
+			info.ClassIf(a.K == u && reserved, "scope_attr_key_is_reserved_label")
+			info.ClassIf(a.K != u && reserved && c.Legacy, "scope_attr_key_sanitises_to_reserved_label(legacy: merged)")
+			info.ClassIf(a.K != u && reserved && !c.Legacy, "scope_attr_key_would_sanitise_to_reserved_label(utf8)")
+			info.ClassIf(san[u] && c.Legacy, "scope_attr_keys_collide_after_sanitisation(legacy)")
+			info.ClassIf(!reserved, "scope_attr_ordinary")
+			san[u] = true
+		}
+		for sj := 0; sj < si; sj++ {
+			o := c.Scopes[sj]
+			info.ClassIf(o.Name == sc.Name, "scopes_share_name")
+			info.ClassIf(o.Name == sc.Name && o.Version == sc.Version, "scopes_share_name_and_version(attributes differ)")
+			for _, a := range sc.Attrs {
+				info.ClassIf((a.K == "otel_scope_name" && a.V == o.Name) || (a.K == "otel_scope_version" && a.V == o.Version), "scope_attr_names_another_scope")
+			}
+		}
+	}
+	info.ClassIf(p.scopeAlias, "weak:scope_info_series_alias_after_merge")
 	info.ClassIf(p.clash, "weak:instruments_may_share_family")
 	info.ClassIf(p.odd, "weak:inconsistent_key_sets")
 	info.ClassIf(p.alias, "weak:attribute_sets_alias_after_merge")
